@@ -63,6 +63,11 @@ fn gate() {
 }
 
 pub fn dispatch(cmd: &str, args: &Args) -> i32 {
+    if cmd.len() == 3 && cmd.starts_with('C') {
+        // a crash of the implementation inside a check is a verdict, not a dead harness
+        let track = matches!(cmd, "C01" | "C02" | "C03" | "C04" | "C05" | "C10" | "C11" | "C12" | "C13" | "C15" | "C17");
+        install_fatal_verdict(cmd, track);
+    }
     match cmd {
         "C01" | "C02" | "C03" | "C04" | "C05" => {
             gate();
@@ -109,6 +114,9 @@ pub fn dispatch(cmd: &str, args: &Args) -> i32 {
 }
 
 pub fn replay_dispatch(prop: &str, case: &Value) -> Vec<Divergence> {
+    if case["kind"].as_str() == Some("fatal") {
+        return crash::replay_fatal(case);
+    }
     match prop {
         "C01" | "C02" | "C03" | "C04" | "C05" => positions::replay_case(prop, case),
         "C06" => fenfuzz::replay_c06(case),
